@@ -142,6 +142,10 @@ def model(m, s, fi, t, fk, args, site):
         r = int_builtin(None, fk, [int(x) if isinstance(x, bool) else x for x in A])
         if r is not NotImplemented and isinstance(r, (int, bool)):
             return r
+        if r is not NotImplemented:
+            c = _convert(r)
+            if c is not None:
+                return c
     if d.startswith("core::num::") and n in ("from_be_bytes", "from_le_bytes") and len(A) == 1 and isinstance(A[0], Tup):
         cells = tuple(A[0])
         if all(isinstance(c, int) for c in cells):
@@ -517,6 +521,20 @@ def model(m, s, fi, t, fk, args, site):
         if rb is not None:
             return rb[0] <= A[1] < rb[1]
     return NotImplemented
+
+
+def _convert(v):
+    """values of the other abstract interpreter (core.absexec) → this machine's"""
+    from . import absexec
+    if isinstance(v, (int, bool)):
+        return v
+    if isinstance(v, absexec.Adt):
+        fs = [_convert(x) for x in v.fields]
+        return None if any(x is None for x in fs) else Adt(v.name, v.variant, fs)
+    if isinstance(v, absexec.Tup):
+        fs = [_convert(x) for x in v.items]
+        return None if any(x is None for x in fs) else Tup(fs)
+    return None
 
 
 def _concrete(v):
